@@ -1,12 +1,37 @@
 (* Correspondence cases for C18: what the implementation returned, compared with the model. *)
-From NG Require Import Common.Tactics Common.HarnessLib Codec.Bigint.
+From NG Require Export Common.Tactics Common.HarnessLib Codec.Bigint.
+From NG Require Import Common.Sha256 Codec.Base58 Codec.Fixed Codec.UintStr Codec.Merkle Codec.Multisig.
 Open Scope Z_scope.
 
-Inductive case :=
-| CBigEnc (z : Z) (impl : list Z)          (* bigint.ToBytes z = impl *)
-| CBigDec (bs : list Z) (impl : Z).        (* bigint.FromBytes bs = impl *)
-
 Definition zlist_eqb := list_eqb Z.eqb.
+Definition ozl_eqb := option_eqb zlist_eqb.
+Definition oz_eqb := option_eqb Z.eqb.
+
+(* SHA-256 over Z bytes (Common/Sha256.v works on N) *)
+Definition sha256dZ (bs : list Z) : list Z := map Z.of_N (sha256d (map Z.to_N bs)).
+(* hash.Checksum: first four bytes of the double SHA-256 *)
+Definition checksumZ (bs : list Z) : list Z := firstn 4 (sha256dZ bs).
+(* the Merkle node hash: DoubleSha256(a.BytesBE ++ b.BytesBE) *)
+Definition merkleH (a b : list Z) : list Z := sha256dZ (a ++ b).
+Definition zero256 : list Z := repeat 0 32.
+
+Inductive case :=
+| CBigEnc (z : Z) (impl : list Z)                                (* bigint.ToBytes z = impl *)
+| CBigDec (bs : list Z) (impl : Z)                               (* bigint.FromBytes bs = impl *)
+| CB58Enc (bs : list Z) (impl : list Z)                          (* base58.Encode *)
+| CB58Dec (s : list Z) (impl : option (list Z))                  (* base58.Decode *)
+| CCheckEnc (bs : list Z) (impl : list Z)                        (* base58.CheckEncode *)
+| CCheckDec (s : list Z) (impl : option (list Z))                (* base58.CheckDecode *)
+| CAddrEnc (prefix : Z) (u : list Z) (impl : list Z)             (* address.Uint160ToString *)
+| CAddrDec (prefix : Z) (s : list Z) (impl : option (list Z))    (* address.StringToUint160 *)
+| CFixedToStr (v : Z) (prec : Z) (impl : list Z)                 (* fixedn.ToString *)
+| CFixedFromStr (s : list Z) (prec : Z) (impl : option Z)        (* fixedn.FromString *)
+| CFixed8Str (v : Z) (impl : list Z)                             (* Fixed8.String *)
+| CFixed8FromStr (s : list Z) (impl : option Z)                  (* Fixed8FromString *)
+| CUintStr (u : list Z) (be le js : list Z)                      (* StringBE, StringLE, JSON text without quotes *)
+| CUintDec (n : Z) (mode : Z) (s : list Z) (impl : option (list Z)) (* 0 DecodeStringBE, 1 DecodeStringLE, 2 JSON *)
+| CMerkle (hs : list (list Z)) (calc : list Z) (tree : option (list Z)) (* CalcMerkleRoot, NewMerkleTree(..).Root() *)
+| CMultisig (keys sigs : list Z) (impl : bool).                  (* CHECKMULTISIG: key ids, signer id of each signature (or -1), every run returned impl *)
 
 Definition check_case (c : case) : N :=
   match c with
@@ -20,4 +45,48 @@ Definition check_case (c : case) : N :=
         let m := from_bytes bs =? impl in
         code_of m (from_bytes_spec bs =? impl)
       else 3%N
+  | CB58Enc bs impl =>
+      if negb (bytes_okb bs) then 3%N else
+      let m := zlist_eqb (b58_encode bs) impl in
+      (* specification: decodes back to bs (the model's decoder is proved inverse on non-empty input) *)
+      code_of m (match bs with [] => m | _ => ozl_eqb (b58_decode impl) (Some bs) end)
+  | CB58Dec s impl => let m := ozl_eqb (b58_decode s) impl in code_of m m
+  | CCheckEnc bs impl =>
+      if negb (bytes_okb bs) then 3%N else
+      let m := zlist_eqb (check_encode checksumZ bs) impl in
+      code_of m (match bs with [] => m | _ => ozl_eqb (check_decode checksumZ impl) (Some bs) end)
+  | CCheckDec s impl => let m := ozl_eqb (check_decode checksumZ s) impl in code_of m m
+  | CAddrEnc p u impl =>
+      let m := zlist_eqb (addr_encode checksumZ p u) impl in
+      code_of m (ozl_eqb (addr_decode checksumZ p impl) (Some u))
+  | CAddrDec p s impl => let m := ozl_eqb (addr_decode checksumZ p s) impl in code_of m m
+  | CFixedToStr v prec impl =>
+      let m := zlist_eqb (to_string v (Z.to_nat prec)) impl in
+      (* specification: the string parses back to v *)
+      code_of m (oz_eqb (from_string impl (Z.to_nat prec)) (Some v))
+  | CFixedFromStr s prec impl => let m := oz_eqb (from_string s (Z.to_nat prec)) impl in code_of m m
+  | CFixed8Str v impl =>
+      let m := zlist_eqb (fixed8_string v) impl in
+      code_of m (oz_eqb (fixed8_from_string impl) (Some v))
+  | CFixed8FromStr s impl => let m := oz_eqb (fixed8_from_string s) impl in code_of m m
+  | CUintStr u be le js =>
+      let m := zlist_eqb (string_be u) be && zlist_eqb (string_le u) le && zlist_eqb (json_string u) js in
+      let n := length u in
+      code_of m (ozl_eqb (decode_string_be n be) (Some u) && ozl_eqb (decode_string_le n le) (Some u) && ozl_eqb (json_decode n js) (Some u))
+  | CUintDec n mode s impl =>
+      let r := if mode =? 0 then decode_string_be (Z.to_nat n) s
+               else if mode =? 1 then decode_string_le (Z.to_nat n) s else json_decode (Z.to_nat n) s in
+      let m := ozl_eqb r impl in code_of m m
+  | CMerkle hs calc tree =>
+      (* specification = the recursive pairwise definition; both mechanisms are proved equal to it *)
+      let spec := merkle_root (list Z) merkleH zero256 hs in
+      let m := zlist_eqb (calc_merkle_root (list Z) merkleH zero256 hs) calc
+               && ozl_eqb (option_map (@tree_root (list Z)) (new_merkle_tree (list Z) merkleH zero256 hs)) tree in
+      code_of m (zlist_eqb spec calc && ozl_eqb (match hs with [] => None | _ => Some spec end) tree)
+  | CMultisig keys sigs impl =>
+      (* specification = the sequential in-order matcher; mechanism = the parallel checker under three schedules *)
+      let spec := seq_match Z.eqb keys sigs in
+      let par (sched : list nat) := option_eqb Bool.eqb (par_check Z.eqb sched keys sigs) (Some impl) in
+      let m := par [] && par [1; 1; 1; 1; 1; 1; 1; 1]%nat && par [0; 1; 0; 1; 1; 0; 1; 0]%nat in
+      code_of m (Bool.eqb spec impl)
   end.
